@@ -73,7 +73,7 @@ def phases(tier: str) -> List[Dict[str, Any]]:
         return [
             {"name": "nofault", "runs": 8000, "batch": 125, "timeout": 240, "wall": 100},
             {"name": "faults", "runs": 8000, "batch": 125, "timeout": 240, "wall": 100},
-            {"name": "known", "runs": 3, "explicit": True, "timeout": 240, "wall": 60},
+            {"name": "known", "runs": 5, "explicit": True, "timeout": 240, "wall": 60},
         ]
     return [
         {"name": "nofault", "runs": 120000, "batch": 500, "timeout": 1200, "wall": 900},
@@ -92,10 +92,19 @@ def explicit_plans(tier: str, phase: str) -> List[Dict[str, Any]]:
                   "tag": "output", "depth": 7, "shape": [2, 3]}
         plans.append({"phase": "known", "overwrite_params_on_conversion": True, "timeout": 300, "shrink_budget": 0,
                       "ops": [create, {"op": "to", "h": 0, "dtype": dtype}]})
+    for kind in ("linear", "layernorm"):
+        create = {"op": "create", "kind": kind, "tseed": 5, "dims": [3, 4], "flag": True}
+        plans.append({"phase": "known", "timeout": 300, "shrink_budget": 0,
+                      "ops": [create, {"op": "lsd", "h": 0, "tseed": 9, "assign": True}]})
     return plans
 
 
 def neutralise(plan: Dict[str, Any], finding: Dict[str, Any]) -> Optional[Dict[str, Any]]:
+    if finding.get("id") == "D20" and any(o.get("assign") for o in plan["ops"]):
+        c = copy.deepcopy(plan)
+        for o in c["ops"]:
+            o.pop("assign", None)  # counterfactual: the default in-place copy of load_state_dict
+        return c
     if finding.get("id") == "D17" and plan.get("overwrite_params_on_conversion"):
         c = copy.deepcopy(plan)
         c["overwrite_params_on_conversion"] = False  # counterfactual: torch's default conversion mode
@@ -587,11 +596,20 @@ def execute(plan: Dict[str, Any]) -> Dict[str, Any]:
                     continue
                 spec = dict(h.spec, tseed=op["tseed"])
                 twin = make_handle(spec)
-                twin.obj.load_state_dict(h.obj.state_dict())
+                twin.obj.load_state_dict(h.obj.state_dict(), assign=bool(op.get("assign")))
                 src = {pm.name: pm for pm in h.params}
                 for pm in twin.params:
                     pm.shadow = src[pm.name].shadow.to(pm.shadow.dtype)
                 twin.born = "load_state_dict"
+                if op.get("assign"):
+                    for pm in twin.params:  # assign=True takes dtype and values over as they are
+                        pm.shadow = src[pm.name].shadow.clone()
+                    try:
+                        check_handle(twin, where)
+                    except Violation as v:
+                        if v.invariant in ("tags_preserved", "is_parameter"):
+                            raise Violation("tags_preserved", "lost_on_load_state_dict_assign", v.detail)
+                        raise
                 add(twin)
             elif k == "lsd_into":
                 s = handles[op["src"] % len(handles)]
